@@ -1145,3 +1145,292 @@ Proof.
     [|discriminate].
   intro H. inversion H; subst. exists n. exact (proj1 (find_some _ _ E)).
 Qed.
+
+(* ================================================================== the nine formerly partial pairs, with the follow-up lemmas
+   C02_sm_read_tempo_list_on_lines / C04_bms_read_tempo_list_on_lines (tempo changes on measure lines: the chart's tempo
+   list IS the denoted one; off the lines the reader reseats: the known finding tempo-reseated) and C05_bms_write_timeline
+   (the 1/192-beat bound of the BMS writer as timeline closeness). *)
+From RV Require Proofs.BMSTimelineProofs Proofs.TimingProofs Formats.BMSGuards.
+Open Scope Q_scope.
+
+(* ---- StepMania reader, tempo changes on measure lines ---- *)
+Theorem sm_reader_rows_lines txt : SMReadDom.c02_domb txt = true -> SMReadDom.sm_tempo_on_lines txt = true ->
+  exists d s, SMSpec.sm_denote txt = Some d /\ SM.sm_read SMProofs.live_conf SM.current txt = Some s /\
+    forall k dc c, nth_error (SMSpec.d_charts d) k = Some dc -> nth_error (SM.s_maps s) k = Some c ->
+      timeline_close 0 0 (tl_of_rows (rows_of_smchart c)) (tl_of_sm_chart d dc).
+Proof.
+  intros H HL. destruct (sm_reader_rows txt H) as [d [s [D [R F]]]].
+  destruct (C02.C02_sm_read_tempo_list_on_lines txt H HL) as [d' [s' [D' [R' TE]]]].
+  rewrite D in D'. inversion D'; subst d'. rewrite R in R'. inversion R'; subst s'.
+  exists d, s. split; [exact D|]. split; [exact R|]. intros k dc c Nd Nc. apply (F k dc c Nd Nc).
+  unfold sm_tempo_same. unfold SMReadWhole.tempo_exact in TE. rewrite Forall_forall in TE.
+  specialize (TE c (nth_error_In _ _ Nc)). unfold rows_of_smchart. cbn [r_bpms].
+  clear - TE. induction TE as [|b tp bl tl Hb F IH]; [reflexivity|]. cbn [map ms_matchb take_first].
+  destruct Hb as [E1 [E2 _]]. unfold tempo_close_byb at 1. cbn [fst snd]. unfold q_within.
+  replace (Qle_bool (Qabs (fst (fst b) - snd tp)) 0) with true.
+  2:{ symmetry. apply Qle_bool_iff. apply Qabs_zero_le; [rewrite E1; ring | lra]. }
+  replace (Qle_bool (Qabs (snd (fst b) - snd (fst tp))) 0) with true.
+  2:{ symmetry. apply Qle_bool_iff. apply Qabs_zero_le; [rewrite E2; ring | lra]. }
+  cbn [andb]. exact IH.
+Qed.
+
+(* ---- BMS reader, tempo objects on measure lines: the read RETURNS ---- *)
+Theorem bms_reader_rows_lines lay mk lines :
+  BMSSpec.layout_ok mk lay = true -> BMSSpec.wf_bms_lines lay lines = true -> BMSSpec.read_guards C04.tbl lines = true ->
+  BMSGuards.bms_tempo_on_lines lines = true ->
+  exists c d, BMS.bms_read C04.tbl lay mk lines = Some c /\ BMSSpec.bms_denote lay lines = Some d
+    /\ timeline_close 0 0 (tl_of_rows (rows_of_bms c)) (tl_of_bms d).
+Proof.
+  intros HL HW HG HT. destruct (C04.C04_bms_read_tempo_list_on_lines lay mk lines HL HW HG HT) as [c [d [R [D [_ FT]]]]].
+  exists c, d. split; [exact R|]. split; [exact D|].
+  destruct (bms_reader_rows lay mk lines c HL HW HG R) as [d' [D' H]]. rewrite D in D'. inversion D'; subst d'.
+  apply H. unfold bms_tempo_same, rows_of_bms. cbn [r_bpms].
+  clear - FT. induction FT as [|b tb bl tl Hb F IH]; [reflexivity|]. cbn [map ms_matchb take_first].
+  destruct Hb as [E1 [E2 _]]. unfold tempo_close_byb at 1. cbn [fst snd]. unfold q_within.
+  replace (Qle_bool (Qabs (Snap.bo_off b - fst tb)) 0) with true.
+  2:{ symmetry. apply Qle_bool_iff. apply Qabs_zero_le; [rewrite E1; ring | lra]. }
+  replace (Qle_bool (Qabs (Snap.bo_bpm b - snd tb)) 0) with true.
+  2:{ symmetry. apply Qle_bool_iff. apply Qabs_zero_le; [rewrite E2; ring | lra]. }
+  cbn [andb]. exact IH.
+Qed.
+
+(* ---- BMS writer: every time within 1/192 beat at the local tempo of the chart written (exact on the snap grid) ---- *)
+Lemma tl_of_wchart_build r p : timeline_close 0 0 (BMSTimelineProofs.tl_of_wchart (build_bms r p)) (tl_of_rows r).
+Proof.
+  unfold BMSTimelineProofs.tl_of_wchart, build_bms, tl_of_rows. cbn [BMS.w_hits BMS.w_holds BMS.w_bpms].
+  rewrite !map_map. cbn [BMS.h_col BMS.h_off BMS.ho_col BMS.ho_off BMS.ho_len].
+  apply timeline_close_of_perm; [apply Permutation_refl|].
+  eapply Permutation_trans; [apply Permutation_map; apply Permutation_sym; apply TimingProofs.sort_by_perm|].
+  rewrite map_map. cbn [Snap.bo_off Snap.bo_bpm]. rewrite (map_id_ext _ (r_bpms r)); [apply Permutation_refl|]. intros [x y]; reflexivity.
+Qed.
+
+Lemma close_by_then_exact (rf : Q -> Q) e a b c : (forall t t', t == t' -> rf t = rf t') ->
+  timeline_close_by rf e a b -> timeline_close 0 0 b c -> timeline_close_by rf e a c.
+Proof.
+  intros Hrf [N1 T1] [N2 T2]. split.
+  - eapply ms_rel_trans; [|exact N1|exact N2]. intros x y z [A [B [C D]]] [A' [B' [C' D']]].
+    assert (Ez: tn_time y == tn_time z) by (apply Qabs_Qle_condition in C'; lra).
+    assert (Ee: tn_end y == tn_end z) by (apply Qabs_Qle_condition in D'; lra).
+    unfold note_close_by. repeat split; try congruence.
+    + rewrite <- (Hrf _ _ Ez). apply (Qabs_le_eq _ (tn_time x - tn_time y)); [rewrite Ez; ring | exact C].
+    + rewrite <- (Hrf _ _ Ee). apply (Qabs_le_eq _ (tn_end x - tn_end y)); [rewrite Ee; ring | exact D].
+  - eapply ms_rel_trans; [|exact T1|exact T2]. intros x y z [A B] [A' B'].
+    assert (Ez: fst y == fst z) by (apply Qabs_Qle_condition in A'; lra).
+    assert (Eb: snd y == snd z) by (apply Qabs_Qle_condition in B'; lra).
+    split.
+    + rewrite <- (Hrf _ _ Ez). apply (Qabs_le_eq _ (fst x - fst y)); [rewrite Ez; ring | exact A].
+    + apply (Qabs_le_eq _ (snd x - snd y)); [rewrite Eb; ring | exact B].
+Qed.
+
+Definition bms_res (r : rows) (p : bms_rest) : Q -> Q := res_of FBms (tl_tempo (BMSTimelineProofs.tl_of_wchart (build_bms r p))).
+
+Theorem bms_writer_bound mk lay dflt r p (rd : Q -> list Z) tsrc :
+  timeline_close 0 0 (tl_of_rows r) tsrc ->
+  BMSSpec.write_dom C05.tbl mk lay dflt (build_bms r p) = true -> (forall q, BMSText.parse_decimal (rd q) <> None) ->
+  exists ls dt, BMS.bms_write C05.tbl lay dflt (build_bms r p) = Some ls
+    /\ BMSSpec.bms_denote lay (map (BMSSpec.render_with rd) ls) = Some dt
+    /\ timeline_close_by (bms_res r p) 0 (tl_of_bms dt) tsrc.
+Proof.
+  intros Hc Hdom Hr. destruct (C05.C05_bms_write_timeline mk lay dflt _ rd Hdom Hr) as [ls [l [dt [W [_ [D [_ T]]]]]]].
+  exists ls, dt. split; [exact W|]. split; [exact D|].
+  pose proof (timeline_close_trans _ _ _ _ _ _ _ (tl_of_wchart_build r p) Hc) as X.
+  assert (X0: timeline_close 0 0 (BMSTimelineProofs.tl_of_wchart (build_bms r p)) tsrc) by (eapply timeline_close_weaken; [| |exact X]; lra).
+  unfold bms_res. eapply close_by_then_exact; [|exact T|exact X0].
+  intros t t' E. apply BMSTimelineProofs.bl_near_res_comp_gen. exact E.
+Qed.
+
+Definition bms_target_bound (mk : Z) (lay : BMSSpec.slayout) (dflt : list Z) (p : bms_rest) (rd : Q -> list Z) (r' : rows) (tsrc : timeline) : Prop :=
+  BMSSpec.write_dom C05.tbl mk lay dflt (build_bms r' p) = true -> (forall q, BMSText.parse_decimal (rd q) <> None) ->
+  exists ls dt, BMS.bms_write C05.tbl lay dflt (build_bms r' p) = Some ls
+    /\ BMSSpec.bms_denote lay (map (BMSSpec.render_with rd) ls) = Some dt
+    /\ timeline_close_by (bms_res r' p) 0 (tl_of_bms dt) tsrc.
+
+(* ---- StepMania -> osu! / Quaver / BMS, FULL for files whose tempo changes lie on measure lines ---- *)
+Section SmSourceLines.
+  Variables (n : Z) (d : conv_desc) (txt : list Z) (a : cargs) (oracle : Converters.chart) (sz : Z).
+  Hypothesis Hd : In (n, d) Tables.convert.converters.
+  Hypothesis W : SMReadDom.c02_domb txt = true.
+  Hypothesis WL : SMReadDom.sm_tempo_on_lines txt = true.
+  Hypothesis Hs : a_shift a = inject_Z sz.
+
+  Lemma sm_lines_step : exists ds s, SMSpec.sm_denote txt = Some ds /\ SM.sm_read SMProofs.live_conf SM.current txt = Some s /\
+    forall k dc c, nth_error (SMSpec.d_charts ds) k = Some dc -> nth_error (SM.s_maps s) k = Some c ->
+    forall sm cs, rows_of_cchart cs = Some (rows_of_smchart c) -> chart_wfb d a sm k cs oracle = true ->
+      exists out, conv_chart d a sm k cs oracle = Some out
+        /\ rows_of_cchart out = Some (shift_rows (conv_shift d sz) (rows_of_smchart c))
+        /\ timeline_close 0 0 (tl_of_rows (shift_rows (conv_shift d sz) (rows_of_smchart c))) (tl_shift (conv_shift d sz) (tl_of_sm_chart ds dc)).
+  Proof.
+    destruct (sm_reader_rows_lines txt W WL) as [ds [s [D [R H]]]]. exists ds, s. split; [exact D|]. split; [exact R|].
+    intros k dc c Nd Nc sm cs Hr Hwf.
+    exact (convert_step d a sm k cs oracle sz _ _ _ _ (shipped_conv_okb _ _ Hd) Hwf Hs Hr (H k dc c Nd Nc)).
+  Qed.
+
+  Theorem sm_to_osu_lines_pipeline p ut ua B :
+    exists ds s, SMSpec.sm_denote txt = Some ds /\ SM.sm_read SMProofs.live_conf SM.current txt = Some s /\
+    forall k dc c, nth_error (SMSpec.d_charts ds) k = Some dc -> nth_error (SM.s_maps s) k = Some c ->
+    forall sm cs, rows_of_cchart cs = Some (rows_of_smchart c) -> chart_wfb d a sm k cs oracle = true ->
+      exists out r', conv_chart d a sm k cs oracle = Some out /\ rows_of_cchart out = Some r' /\
+        (OsuWhole.wdom6 (build_osu r' p) ut ua = true -> (forall b, In b (r_bpms r') -> Qabs (snd b) <= B) ->
+         exists text dt, OsuWhole.written6 (build_osu r' p) ut ua = Some text /\ OsuSpec.wf_osu_text text = true
+           /\ OsuSpec.osu_denote text = Some dt
+           /\ timeline_close 1 (OSU_BPM_EPS B) (tl_of_osu dt) (tl_shift (conv_shift d sz) (tl_of_sm_chart ds dc))).
+  Proof.
+    destruct sm_lines_step as [ds [s [D [R H]]]]. exists ds, s. split; [exact D|]. split; [exact R|].
+    intros k dc c Nd Nc sm cs Hr Hwf. destruct (H k dc c Nd Nc sm cs Hr Hwf) as [out [Ho [Hro Hc]]].
+    exists out, (shift_rows (conv_shift d sz) (rows_of_smchart c)). split; [exact Ho|]. split; [exact Hro|].
+    intros Wd HB. exact (osu_writer_tail _ p ut ua B _ Hc Wd HB).
+  Qed.
+  Theorem sm_to_qua_lines_pipeline qmeta : meta_okb false qmeta = true ->
+    exists ds s, SMSpec.sm_denote txt = Some ds /\ SM.sm_read SMProofs.live_conf SM.current txt = Some s /\
+    forall k dc c, nth_error (SMSpec.d_charts ds) k = Some dc -> nth_error (SM.s_maps s) k = Some c ->
+    forall sm cs, rows_of_cchart cs = Some (rows_of_smchart c) -> chart_wfb d a sm k cs oracle = true ->
+      exists out r', conv_chart d a sm k cs oracle = Some out /\ rows_of_cchart out = Some r' /\
+        (cols_nonneg r' = true ->
+         wf_chartb false (build_qua r' qmeta) = true /\
+         exists doc e, Live.write (build_qua r' qmeta) = Some doc /\ wf_qua_docb doc = true /\ qua_denote doc = Some e
+           /\ timeline_close 1 0 (tl_of_qua e) (tl_shift (conv_shift d sz) (tl_of_sm_chart ds dc))).
+  Proof.
+    intro Hm. destruct sm_lines_step as [ds [s [D [R H]]]]. exists ds, s. split; [exact D|]. split; [exact R|].
+    intros k dc c Nd Nc sm cs Hr Hwf. destruct (H k dc c Nd Nc sm cs Hr Hwf) as [out [Ho [Hro Hc]]].
+    exists out, (shift_rows (conv_shift d sz) (rows_of_smchart c)). split; [exact Ho|]. split; [exact Hro|].
+    intro Hcol. exact (qua_writer_tail _ qmeta _ Hc Hcol Hm).
+  Qed.
+  Theorem sm_to_bms_lines_pipeline mk lay dflt p rd :
+    exists ds s, SMSpec.sm_denote txt = Some ds /\ SM.sm_read SMProofs.live_conf SM.current txt = Some s /\
+    forall k dc c, nth_error (SMSpec.d_charts ds) k = Some dc -> nth_error (SM.s_maps s) k = Some c ->
+    forall sm cs, rows_of_cchart cs = Some (rows_of_smchart c) -> chart_wfb d a sm k cs oracle = true ->
+      exists out r', conv_chart d a sm k cs oracle = Some out /\ rows_of_cchart out = Some r' /\
+        bms_target_bound mk lay dflt p rd r' (tl_shift (conv_shift d sz) (tl_of_sm_chart ds dc)).
+  Proof.
+    destruct sm_lines_step as [ds [s [D [R H]]]]. exists ds, s. split; [exact D|]. split; [exact R|].
+    intros k dc c Nd Nc sm cs Hr Hwf. destruct (H k dc c Nd Nc sm cs Hr Hwf) as [out [Ho [Hro Hc]]].
+    exists out, (shift_rows (conv_shift d sz) (rows_of_smchart c)). split; [exact Ho|]. split; [exact Hro|].
+    intros Hdom Hrd. exact (bms_writer_bound mk lay dflt _ p rd _ Hc Hdom Hrd).
+  Qed.
+End SmSourceLines.
+
+(* ---- BMS -> osu! / Quaver / StepMania, FULL for texts whose tempo objects sit on measure lines (the read returns) ---- *)
+Section BmsSourceLines.
+  Variables (n : Z) (d : conv_desc) (lay : BMSSpec.slayout) (mk : Z) (lines : list (list Z))
+            (a : cargs) (sm : meta) (k : nat) (oracle : Converters.chart) (sz : Z).
+  Hypothesis Hd : In (n, d) Tables.convert.converters.
+  Hypothesis HL : BMSSpec.layout_ok mk lay = true.
+  Hypothesis HW : BMSSpec.wf_bms_lines lay lines = true.
+  Hypothesis HG : BMSSpec.read_guards C04.tbl lines = true.
+  Hypothesis HT : BMSGuards.bms_tempo_on_lines lines = true.
+  Hypothesis Hs : a_shift a = inject_Z sz.
+
+  Lemma bms_lines_step : exists c ds, BMS.bms_read C04.tbl lay mk lines = Some c /\ BMSSpec.bms_denote lay lines = Some ds /\
+    forall cs, rows_of_cchart cs = Some (rows_of_bms c) -> chart_wfb d a sm k cs oracle = true ->
+      exists out, conv_chart d a sm k cs oracle = Some out
+        /\ rows_of_cchart out = Some (shift_rows (conv_shift d sz) (rows_of_bms c))
+        /\ timeline_close 0 0 (tl_of_rows (shift_rows (conv_shift d sz) (rows_of_bms c))) (tl_shift (conv_shift d sz) (tl_of_bms ds)).
+  Proof.
+    destruct (bms_reader_rows_lines lay mk lines HL HW HG HT) as [c [ds [R [D T]]]]. exists c, ds. split; [exact R|]. split; [exact D|].
+    intros cs Hr Hwf. exact (convert_step d a sm k cs oracle sz _ _ _ _ (shipped_conv_okb _ _ Hd) Hwf Hs Hr T).
+  Qed.
+
+  Theorem bms_to_osu_lines_pipeline p ut ua B :
+    exists c ds, BMS.bms_read C04.tbl lay mk lines = Some c /\ BMSSpec.bms_denote lay lines = Some ds /\
+    forall cs, rows_of_cchart cs = Some (rows_of_bms c) -> chart_wfb d a sm k cs oracle = true ->
+      exists out r', conv_chart d a sm k cs oracle = Some out /\ rows_of_cchart out = Some r' /\
+        (OsuWhole.wdom6 (build_osu r' p) ut ua = true -> (forall b, In b (r_bpms r') -> Qabs (snd b) <= B) ->
+         exists text dt, OsuWhole.written6 (build_osu r' p) ut ua = Some text /\ OsuSpec.wf_osu_text text = true
+           /\ OsuSpec.osu_denote text = Some dt
+           /\ timeline_close 1 (OSU_BPM_EPS B) (tl_of_osu dt) (tl_shift (conv_shift d sz) (tl_of_bms ds))).
+  Proof.
+    destruct bms_lines_step as [c [ds [R [D H]]]]. exists c, ds. split; [exact R|]. split; [exact D|]. intros cs Hr Hwf.
+    destruct (H cs Hr Hwf) as [out [Ho [Hro Hc]]]. exists out, (shift_rows (conv_shift d sz) (rows_of_bms c)).
+    split; [exact Ho|]. split; [exact Hro|]. intros Wd HB. exact (osu_writer_tail _ p ut ua B _ Hc Wd HB).
+  Qed.
+  Theorem bms_to_qua_lines_pipeline qmeta : meta_okb false qmeta = true ->
+    exists c ds, BMS.bms_read C04.tbl lay mk lines = Some c /\ BMSSpec.bms_denote lay lines = Some ds /\
+    forall cs, rows_of_cchart cs = Some (rows_of_bms c) -> chart_wfb d a sm k cs oracle = true ->
+      exists out r', conv_chart d a sm k cs oracle = Some out /\ rows_of_cchart out = Some r' /\
+        (cols_nonneg r' = true ->
+         wf_chartb false (build_qua r' qmeta) = true /\
+         exists doc e, Live.write (build_qua r' qmeta) = Some doc /\ wf_qua_docb doc = true /\ qua_denote doc = Some e
+           /\ timeline_close 1 0 (tl_of_qua e) (tl_shift (conv_shift d sz) (tl_of_bms ds))).
+  Proof.
+    intro Hm. destruct bms_lines_step as [c [ds [R [D H]]]]. exists c, ds. split; [exact R|]. split; [exact D|]. intros cs Hr Hwf.
+    destruct (H cs Hr Hwf) as [out [Ho [Hro Hc]]]. exists out, (shift_rows (conv_shift d sz) (rows_of_bms c)).
+    split; [exact Ho|]. split; [exact Hro|]. intro Hcol. exact (qua_writer_tail _ qmeta _ Hc Hcol Hm).
+  Qed.
+  Theorem bms_to_sm_lines_pipeline p :
+    exists c ds, BMS.bms_read C04.tbl lay mk lines = Some c /\ BMSSpec.bms_denote lay lines = Some ds /\
+    forall cs, rows_of_cchart cs = Some (rows_of_bms c) -> chart_wfb d a sm k cs oracle = true ->
+      exists out r', conv_chart d a sm k cs oracle = Some out /\ rows_of_cchart out = Some r' /\
+        (SMWriteWholeFile.c03_domb (build_sm r' p) = true -> distinct_offs (r_bpms r') ->
+         exists toks, SM.sm_write SMProofs.live_conf SM.current (build_sm r' p) = Some toks /\
+           forall txt, SM.match_toks 0 toks txt = true ->
+             exists dt dc, SMSpec.sm_denote txt = Some dt /\ SMSpec.d_charts dt = [dc]
+               /\ timeline_close 0 0 (tl_of_sm_chart dt dc) (tl_shift (conv_shift d sz) (tl_of_bms ds))).
+  Proof.
+    destruct bms_lines_step as [c [ds [R [D H]]]]. exists c, ds. split; [exact R|]. split; [exact D|]. intros cs Hr Hwf.
+    destruct (H cs Hr Hwf) as [out [Ho [Hro Hc]]]. exists out, (shift_rows (conv_shift d sz) (rows_of_bms c)).
+    split; [exact Ho|]. split; [exact Hro|]. intros Hdom Hdist. exact (sm_writer_tail _ p _ _ _ Hc Hdom Hdist).
+  Qed.
+End BmsSourceLines.
+
+(* ---- osu! / Quaver / O2Jam -> BMS, FULL inside write_dom: every time within 1/192 beat at the local tempo ---- *)
+Theorem osu_to_bms_bound_pipeline n d lines a sm k oracle sz mk lay dflt p rd :
+  In (n, d) Tables.convert.converters ->
+  OsuSpec.wf_read_text lines = true -> OsuSpec.strict_read_text lines = true -> a_shift a = inject_Z sz ->
+  exists dsrc c, OsuSpec.osu_denote lines = Some dsrc /\ Osu.osu_read lines = Some c /\
+    forall cs, rows_of_cchart cs = Some (rows_of_osu c) -> chart_wfb d a sm k cs oracle = true ->
+      exists out r', conv_chart d a sm k cs oracle = Some out /\ rows_of_cchart out = Some r' /\
+        bms_target_bound mk lay dflt p rd r' (tl_shift (conv_shift d sz) (tl_of_osu dsrc)).
+Proof.
+  intros Hd W S Hs. destruct (osu_reader_rows lines W S) as [dsrc [c [D [R T]]]].
+  exists dsrc, c. split; [exact D|]. split; [exact R|]. intros cs Hr Hwf.
+  assert (T0: timeline_close 0 0 (tl_of_rows (rows_of_osu c)) (tl_of_osu dsrc)) by (rewrite T; apply timeline_close_refl; lra).
+  destruct (convert_step d a sm k cs oracle sz _ _ _ _ (shipped_conv_okb _ _ Hd) Hwf Hs Hr T0) as [out [Ho [Hro Hc]]].
+  exists out, (shift_rows (conv_shift d sz) (rows_of_osu c)). split; [exact Ho|]. split; [exact Hro|].
+  intros Hdom Hrd. exact (bms_writer_bound mk lay dflt _ p rd _ Hc Hdom Hrd).
+Qed.
+Theorem qua_to_bms_bound_pipeline n d doc a sm k oracle sz mk lay dflt p rd :
+  In (n, d) Tables.convert.converters -> wf_docb doc = true -> a_shift a = inject_Z sz ->
+  exists c e rA, Live.read doc = Some c /\ qua_denote doc = Some e /\ rows_of_qua c = Some rA /\
+    forall cs, rows_of_cchart cs = Some rA -> chart_wfb d a sm k cs oracle = true ->
+      exists out r', conv_chart d a sm k cs oracle = Some out /\ rows_of_cchart out = Some r' /\
+        bms_target_bound mk lay dflt p rd r' (tl_shift (conv_shift d sz) (tl_of_qua e)).
+Proof.
+  intros Hd W Hs. destruct (qua_reader_rows doc W) as [c [e [rA [R [E [Hr0 T0]]]]]].
+  exists c, e, rA. split; [exact R|]. split; [exact E|]. split; [exact Hr0|]. intros cs Hr Hwf.
+  destruct (convert_step d a sm k cs oracle sz _ _ _ _ (shipped_conv_okb _ _ Hd) Hwf Hs Hr T0) as [out [Ho [Hro Hc]]].
+  exists out, (shift_rows (conv_shift d sz) rA). split; [exact Ho|]. split; [exact Hro|].
+  intros Hdom Hrd. exact (bms_writer_bound mk lay dflt _ p rd _ Hc Hdom Hrd).
+Qed.
+Theorem o2j_to_bms_bound_pipeline n d f trail a sm oracle sz mk lay dflt p rd :
+  Tables.c07.layout = O2JSpec.ref_layout ->
+  In (n, d) Tables.convert.converters -> O2JSpec.wf_file f = true -> a_shift a = inject_Z sz ->
+  exists o dn, O2J.read_fixed (O2JSpec.encode_file f ++ trail) = Some o /\ O2JSpec.ojn_denote f = Some dn /\
+    forall k mo md, nth_error (O2J.os_maps o) k = Some mo -> nth_error (O2J.os_maps dn) k = Some md ->
+    forall cs, rows_of_cchart cs = Some (rows_of_omap mo) -> chart_wfb d a sm k cs oracle = true ->
+      exists out r', conv_chart d a sm k cs oracle = Some out /\ rows_of_cchart out = Some r' /\
+        bms_target_bound mk lay dflt p rd r' (tl_shift (conv_shift d sz) (tl_of_omap md)).
+Proof.
+  intros L Hd W Hs. destruct (o2j_reader_half L f trail W) as [o [dn [R [D H]]]].
+  exists o, dn. split; [exact R|]. split; [exact D|]. intros k mo md No Nd cs Hr Hwf.
+  destruct (H k mo md No Nd) as [T0 _]. rewrite <- tl_of_rows_of_omap in T0 at 1.
+  destruct (convert_step d a sm k cs oracle sz _ _ _ _ (shipped_conv_okb _ _ Hd) Hwf Hs Hr T0) as [out [Ho [Hro Hc]]].
+  exists out, (shift_rows (conv_shift d sz) (rows_of_omap mo)). split; [exact Ho|]. split; [exact Hro|].
+  intros Hdom Hrd. exact (bms_writer_bound mk lay dflt _ p rd _ Hc Hdom Hrd).
+Qed.
+
+(* non-vacuity of the new guards: C02's / C04's on-lines witnesses are in the readers' domains *)
+From RV Require Proofs.SMReadWitness.
+Lemma example_sm_on_lines :
+  SMReadDom.c02_domb SMReadWitness.w_read_on_lines = true /\ SMReadDom.sm_tempo_on_lines SMReadWitness.w_read_on_lines = true.
+Proof. split; vm_compute; reflexivity. Qed.
+Lemma example_bms_on_lines :
+  BMSSpec.layout_ok Tables.bms.max_keys C04.lay_PMS && BMSSpec.wf_bms_lines C04.lay_PMS C04.w_on_lines
+  && BMSSpec.read_guards C04.tbl C04.w_on_lines && BMSGuards.bms_tempo_on_lines C04.w_on_lines = true.
+Proof. vm_compute. reflexivity. Qed.
+(* ... and a chart in write_dom whose times are NOT on the snap grid (the regime the bound is for): a hit 1 ms after a beat *)
+Definition example_rows_offgrid : rows := mkRows [(501, 0%Z)] [(1000, 1%Z, 251)] [(0, 120)].
+Lemma example_bms_offgrid :
+  BMSSpec.write_dom C05.tbl Tables.bms.max_keys C04.lay_PMS [48; 49]%Z (build_bms example_rows_offgrid example_bms_rest) = true
+  /\ match BMSSpec.wscript C05.tbl (build_bms example_rows_offgrid example_bms_rest) with
+     | Some l => bms_on_grid example_rows_offgrid l | None => true end = false.
+Proof. split; vm_compute; reflexivity. Qed.
